@@ -31,6 +31,7 @@ type VC struct {
 	abstracted  []string
 	ufs         map[string]bool
 	notes       []string
+	ghostLocalSorts map[string]string
 }
 
 type Obligation struct {
@@ -57,7 +58,7 @@ func newVC(eng *Engine, unit string) *VC {
 		declared: map[string]bool{}, structSorts: map[string]string{}, structTypes: map[string]*types.Struct{},
 		heapNames: map[string]string{}, heapSorts: map[string]string{},
 		typeIDs: map[string]int{}, strIDs: map[string]int{}, floatIDs: map[string]int{},
-		usedAssumed: map[string]bool{}, ufs: map[string]bool{}}
+		usedAssumed: map[string]bool{}, ufs: map[string]bool{}, ghostLocalSorts: map[string]string{}}
 	vc.emit("(declare-datatype Slice ((mk-slice (s-arr Int) (s-off Int) (s-len Int) (s-cap Int))))")
 	vc.emit("(declare-fun dyntype (Int) Int)")
 	vc.emit("(declare-fun strlen (Int) Int)")
